@@ -9,6 +9,7 @@ mod ingest;
 mod matchwalk;
 mod members;
 mod poolstress;
+mod schemareplay;
 mod sim;
 mod sublife;
 mod subrace;
@@ -43,6 +44,7 @@ fn main() {
             "sub-life" => sublife::run(args[2].parse().unwrap(), &args[3], args[4].parse().unwrap(), &args[5]).await,
             "cluster-probe" => clusterprobe::run(&args[2]).await,
             "api-gate" => apigate::run(&args[2]).await,
+            "schema-replay" => schemareplay::run(&args[2]).await,
             "sim-replay" => sim::run_replay(&args[2], &args[3]).await,
             "replay-members" => members::run(&args[2]),
             "replay-chunker" => chunker::run_chunker(&args[2]),
